@@ -111,7 +111,7 @@ private:
   void op_reset0(const Step&); void op_reset(const Step&); void op_set(const Step&); void op_setall(const Step&);
   void op_scale(const Step&); void op_addsub(const Step&, bool add); void op_mul(const Step&); void op_smul(const Step&);
   void op_trans(const Step&); void op_inv(const Step&); void op_chol(const Step&); void op_svd(const Step&);
-  void op_conv(const Step&); void op_io(const Step&); void op_norm(const Step&); void op_sort(const Step&); void op_inplace(const Step&);
+  void op_band(const Step&); void op_conv(const Step&); void op_io(const Step&); void op_norm(const Step&); void op_sort(const Step&); void op_inplace(const Step&);
 
   int usable(long long k) const     // a live, not moved-from slot, chosen modulo
   {
@@ -796,6 +796,54 @@ void ObjsEngine::op_chol(const Step& st)
   L->line("  chol %s n=%d b=%d x1=%s", TN[t], n, s.m.b, hexfloat(x(1)).c_str());
 }
 
+// BandMat beyond cholDec/solve: the band subset of the inverse (also with a wider requested band), the
+// tridiagonalisation and the eigenvalues, each against the dense model
+void ObjsEngine::op_band(const Step& st)
+{
+  int n = 1 + (int)(st.arg(0) % MAXD), b = (int)(st.arg(1) % MAXD); if (b > n - 1) b = n - 1;
+  int kind = (int)(st.arg(2) % 3);
+  Rng g((uint64_t)st.arg(3) * 53 + 11);
+  Model A; A.shape(T_BAND, n, n, b); spd_values(A, g);
+  RBand M(n, b); for (int i = 1; i <= n; i++) for (int k = i; k <= std::min(n, i + b); k++) M(i, k) = A.at(i, k);
+  double amax = 0; for (double v : A.d) amax = std::max(amax, std::fabs(v));
+  if (kind == 0) {
+    int pbw = b + (int)(st.arg(4) % 3); if (pbw > n - 1) pbw = n - 1; if (pbw < b) pbw = b;
+    ST->state("triples", fmt("invBand/BandMat/%s", pbw == b ? "same-band" : "wider-band"));
+    Model X; double cond = 0; if (!model_inverse(A, X, cond)) return;
+    RBand F(M); F.cholDec(); RBand Z; F.invBand(Z, pbw);
+    if (Z.dim() != n || Z.bandWidth() != pbw) throw Fail{"C15:algebra:BandMat::invBand", fmt("result is %d band %d, asked for %d band %d", Z.dim(), Z.bandWidth(), n, pbw)};
+    for (int i = 1; i <= n; i++) for (int k = i; k <= std::min(n, i + pbw); k++) {
+      double z = ((const RBand&)Z)(i, k);
+      if (!(std::fabs(z - X.at(i, k)) <= 1e-9 * (1 + cond)))
+        throw Fail{"C15:algebra:BandMat::invBand", fmt("n=%d band=%d requested=%d: Z(%d,%d) = %s, inverse has %s", n, b, pbw, i, k, hexfloat(z).c_str(), hexfloat(X.at(i, k)).c_str())};
+    }
+    L->line("  invBand n=%d b=%d pbw=%d z11=%s", n, b, pbw, hexfloat(((const RBand&)Z)(1, 1)).c_str());
+    return;
+  }
+  // eigenvalues (kind 1) / tridiagonal form (kind 2): compared through the invariants trace and sum of squares
+  // (Frobenius norm), which a similarity transformation keeps
+  double tr = 0, fro = 0; for (int i = 1; i <= n; i++) { tr += A.at(i, i); for (int k = 1; k <= n; k++) fro += A.at(i, k) * A.at(i, k); }
+  if (kind == 1) {
+    ST->state("triples", fmt("eigenVal/BandMat/band%s", b == 0 ? "0" : b == n - 1 ? "full" : "mid"));
+    RBand E(M); RVec ev; E.eigenVal(ev);
+    if (ev.dim() != n) throw Fail{"C15:algebra:BandMat::eigenVal", "wrong number of eigenvalues"};
+    double s1 = 0, s2 = 0, mn = 1e300; for (int i = 1; i <= n; i++) { s1 += ev(i); s2 += ev(i) * ev(i); mn = std::min(mn, ev(i)); }
+    double tol = 1e-8 * (1 + amax) * (1 + amax) * n;
+    if (!(std::fabs(s1 - tr) <= tol) || !(std::fabs(s2 - fro) <= tol * (1 + amax)) || !(mn > 0))
+      throw Fail{"C15:algebra:BandMat::eigenVal", fmt("n=%d band=%d: sum %s (trace %s), sum of squares %s (%s), smallest %s of a positive definite matrix", n, b, hexfloat(s1).c_str(), hexfloat(tr).c_str(), hexfloat(s2).c_str(), hexfloat(fro).c_str(), hexfloat(mn).c_str())};
+    L->line("  eigenVal n=%d b=%d sum=%s", n, b, hexfloat(s1).c_str());
+  } else {
+    ST->state("triples", fmt("triDiag/BandMat/band%s", b == 0 ? "0" : b == n - 1 ? "full" : "mid"));
+    RBand T(M); T.triDiag();
+    double s1 = 0, s2 = 0;
+    for (int i = 1; i <= n; i++) { s1 += ((const RBand&)T)(i, i); s2 += ((const RBand&)T)(i, i) * ((const RBand&)T)(i, i); if (i < n && b >= 1) { double o = ((const RBand&)T)(i, i + 1); s2 += 2 * o * o; } }
+    double tol = 1e-8 * (1 + amax) * (1 + amax) * n;
+    if (!(std::fabs(s1 - tr) <= tol) || !(std::fabs(s2 - fro) <= tol * (1 + amax)))
+      throw Fail{"C15:algebra:BandMat::triDiag", fmt("n=%d band=%d: trace %s vs %s, Frobenius %s vs %s", n, b, hexfloat(s1).c_str(), hexfloat(tr).c_str(), hexfloat(s2).c_str(), hexfloat(fro).c_str())};
+    L->line("  triDiag n=%d b=%d tr=%s", n, b, hexfloat(s1).c_str());
+  }
+}
+
 void ObjsEngine::op_svd(const Step& st)
 {
   // a fresh m x n matrix (m >= n) of planted rank built from small integers, so that rank is numerically unambiguous
@@ -947,7 +995,7 @@ void ObjsEngine::step(const Step& st, int idx)
   else if (o == "reset0") op_reset0(st); else if (o == "reset") op_reset(st); else if (o == "set") op_set(st); else if (o == "setall") op_setall(st);
   else if (o == "scale") op_scale(st); else if (o == "add") op_addsub(st, true); else if (o == "sub") op_addsub(st, false);
   else if (o == "mul") op_mul(st); else if (o == "smul") op_smul(st); else if (o == "trans") op_trans(st); else if (o == "inv") op_inv(st);
-  else if (o == "chol") op_chol(st); else if (o == "svd") op_svd(st); else if (o == "conv") op_conv(st); else if (o == "io") op_io(st);
+  else if (o == "chol") op_chol(st); else if (o == "band") op_band(st); else if (o == "svd") op_svd(st); else if (o == "conv") op_conv(st); else if (o == "io") op_io(st);
   else if (o == "norm") op_norm(st); else if (o == "sort") op_sort(st);
 }
 
@@ -993,7 +1041,7 @@ Plan ObjsEngine::generate(uint64_t seed, uint64_t, const std::string&)
   struct K { const char* op; int nargs; int w; };
   std::vector<K> kinds = {{"new", 6, 6}, {"del", 1, 1}, {"cctor", 2, 4}, {"casg", 2, 6}, {"mctor", 2, 3}, {"masg", 2, 4}, {"reset0", 1, 2}, {"reset", 6, 5},
                           {"set", 4, 3}, {"setall", 3, 2}, {"scale", 3, 2}, {"add", 6, 4}, {"sub", 6, 3}, {"mul", 6, 6}, {"smul", 5, 2}, {"trans", 4, 3},
-                          {"inv", 4, 2}, {"chol", 5, 2}, {"svd", 5, 1}, {"conv", 4, 2}, {"io", 3, 2}, {"norm", 1, 1}, {"sort", 1, 1}};
+                          {"inv", 4, 2}, {"chol", 5, 2}, {"band", 5, 2}, {"svd", 5, 1}, {"conv", 4, 2}, {"io", 3, 2}, {"norm", 1, 1}, {"sort", 1, 1}};
   std::vector<K> on;
   for (auto& k : kinds) if (std::string(k.op) == "new" || g.chance(3, 4)) { K c = k; c.w = 1 + (int)g.below(2 * k.w); on.push_back(c); }
   int tw = 0; for (auto& k : on) tw += k.w;
